@@ -3,6 +3,7 @@ package h
 // C06 Struct -> Config -> struct is the identity.
 
 import (
+	"math"
 	"regexp"
 	"time"
 
@@ -17,28 +18,32 @@ type r1in struct {
 }
 
 type r1 struct {
-	A    int64            `config:"alpha"`
-	B    uint32           `config:"b.c"`
+	A    int64  `config:"alpha"`
+	B    uint32 `config:"b.c"`
 	C    string
-	D    bool             `config:"d"`
-	E    float64          `config:"e"`
-	F    float32          `config:"f"`
-	Ign  int              `config:",ignore"`
-	In   r1in             `config:",inline"`
-	N    r1in             `config:"nested"`
-	P    *r1in            `config:"p"`
-	L    []int16          `config:"l"`
-	Arr  [2]uint8         `config:"arr"`
-	AP   [2]*r1in         `config:"ap"`
-	M    map[string]int32 `config:"m"`
-	MS   map[string]r1in  `config:"ms"`
-	LS   []r1in           `config:"ls"`
-	U    uint64           `config:"u"`
-	I8   int8             `config:"i8"`
-	Dur  time.Duration    `config:"dur"`
-	Re   *regexp.Regexp   `config:"re"`
-	PP   **int            `config:"pp"`
-	LL   [][]uint8        `config:"ll"`
+	D    bool                `config:"d"`
+	E    float64             `config:"e"`
+	F    float32             `config:"f"`
+	Ign  int                 `config:",ignore"`
+	In   r1in                `config:",inline"`
+	N    r1in                `config:"nested"`
+	P    *r1in               `config:"p"`
+	L    []int16             `config:"l"`
+	Arr  [2]uint8            `config:"arr"`
+	AP   [2]*r1in            `config:"ap"`
+	M    map[string]int32    `config:"m"`
+	MS   map[string]r1in     `config:"ms"`
+	LS   []r1in              `config:"ls"`
+	U    uint64              `config:"u"`
+	I8   int8                `config:"i8"`
+	Dur  time.Duration       `config:"dur"`
+	Re   *regexp.Regexp      `config:"re"`
+	PP   **int               `config:"pp"`
+	LL   [][]uint8           `config:"ll"`
+	LP   []*[]int16          `config:"lp"`
+	MP   map[string]*[]int16 `config:"mp"`
+	LM   []*map[string]int32 `config:"lm"`
+	PM   *map[string]int32   `config:"pm"`
 	priv int
 }
 
@@ -75,7 +80,24 @@ func H_C06_roundtrip() {
 	v.Dur = time.Second
 	v.Re = regexp.MustCompile("x")
 	// one field group is varied per path (keeps the path count linear)
-	switch verif.Choice("vary", 12) {
+	switch verif.Choice("vary", 16) {
+	case 12:
+		// pointers to slices as elements of slices and maps
+		l0 := []int16{verif.Int16("lp0")}
+		l1 := []int16{}
+		v.LP = []*[]int16{&l0, &l1}
+		v.MP = map[string]*[]int16{"k": &l0}
+	case 13:
+		// pointers to maps as elements / behind a field
+		m0 := map[string]int32{"k": verif.Int32("lm0")}
+		v.LM = []*map[string]int32{&m0}
+	case 14:
+		m0 := map[string]int32{"k": verif.Int32("pm0")}
+		v.PM = &m0
+	case 15:
+		// extreme floats of both sizes (concrete: the boundary values themselves)
+		v.F = []float32{math.MaxFloat32, -math.MaxFloat32, math.SmallestNonzeroFloat32, 0.1, 16777217, -0.0}[verif.Choice("f32", 6)]
+		v.E = []float64{math.MaxFloat64, -math.MaxFloat64, math.SmallestNonzeroFloat64, 0.1, math.MaxFloat32, 9007199254740993}[verif.Choice("f64", 6)]
 	case 0:
 	case 9:
 		v.Dur = c06Durations[verif.Choice("dur", len(c06Durations))]
@@ -174,6 +196,27 @@ func H_C06_roundtrip() {
 	}
 	if v.PP != nil {
 		verif.Assert(z.PP != nil && *z.PP != nil && **z.PP == **v.PP, "C06/pointer to pointer")
+	}
+	verif.Assert(len(z.LP) == len(v.LP) && len(z.MP) == len(v.MP), "C06/pointers to slices as elements: sizes")
+	for i := range v.LP {
+		if i < len(z.LP) {
+			verif.Assert(z.LP[i] != nil && len(*z.LP[i]) == len(*v.LP[i]), "C06/pointer to slice as slice element")
+			if z.LP[i] != nil && len(*z.LP[i]) == 1 && len(*v.LP[i]) == 1 {
+				verif.Assert((*z.LP[i])[0] == (*v.LP[i])[0], "C06/pointer to slice as slice element: content")
+			}
+		}
+	}
+	for k, e := range v.MP {
+		verif.Assert(z.MP[k] != nil && len(*z.MP[k]) == len(*e), "C06/pointer to slice as map value")
+	}
+	verif.Assert(len(z.LM) == len(v.LM), "C06/pointers to maps as elements: size")
+	for i := range v.LM {
+		if i < len(z.LM) {
+			verif.Assert(z.LM[i] != nil && verif.Eq((*z.LM[i])["k"], (*v.LM[i])["k"]), "C06/pointer to map as slice element")
+		}
+	}
+	if v.PM != nil {
+		verif.Assert(z.PM != nil && verif.Eq((*z.PM)["k"], (*v.PM)["k"]), "C06/pointer to map field")
 	}
 	verif.Assert(len(z.LL) == len(v.LL), "C06/nested slices length")
 	for i := range v.LL {
